@@ -20,6 +20,8 @@ mod git_commit_parser;
 mod pos_conv;
 
 mod c06;
+mod c08;
+mod c09;
 mod c11;
 mod c12;
 mod c14;
@@ -27,6 +29,7 @@ mod c15;
 mod c19;
 mod checks;
 mod e2;
+mod e3;
 mod frontends;
 mod harvest;
 mod pool;
